@@ -23,7 +23,7 @@ ASSUMPTIONS = ["the float64 reference of the cross-precision monitor is computed
                "'never silently falls back to another precision' is decided jointly with the 1e-11-level float64 comparisons of the other monitors (a float32 detour inside a float64 session would show there)"]
 AMBIENT = True            # thorough tier: the repository's own test-suite runs under this property's general monitor (rv/ambient.py)
 REQUIRED_AMBIENT = {'ambient_shape_dtype': 1000}
-TIMEOUT = {"quick": 1200, "thorough": 3200}
+TIMEOUT = {"quick": 2400, "thorough": 7200}
 C32 = 64.0
 
 
